@@ -561,7 +561,9 @@ async fn remote<P: Protocol>(
         } else {
             AwaitingWill::Cancel
         };
-        sender.try_send(awaiting_will).unwrap();
+        // the task that was waiting on this handle may be gone already (e.g. its
+        // connection was refused by the router): nothing to tell it then
+        sender.try_send(awaiting_will).ok();
     }
 
     let (will_tx, will_rx) = flume::bounded::<AwaitingWill>(1);
